@@ -67,7 +67,7 @@ pub fn oracle_eval(name: &str, detail: &str) -> Option<bool> {
         }
         #[cfg(feature = "std")]
         "pp-encode-feed-poll-roundtrip" => {
-            use helgoboss_midi::verif_hooks::set_now_nanos;
+            use crate::clock::set_now_nanos;
             let (i, c, n, v, timeout): (u32, u32, u32, u32, u64) = (num(&m, "ctor")?, num(&m, "ch")?, num(&m, "number")?, num(&m, "value")?, num(&m, "timeout")?);
             let lsb = m.get("order").map(|s| s == "lsb").unwrap_or(false);
             set_now_nanos(0);
@@ -90,7 +90,7 @@ pub fn oracle_eval(name: &str, detail: &str) -> Option<bool> {
         }
         #[cfg(feature = "std")]
         n if n.starts_with("c13-") => {
-            use helgoboss_midi::verif_hooks::set_now_nanos;
+            use crate::clock::set_now_nanos;
             let (timeout, c, reg, number, v, l): (u64, u32, u32, u32, u32, u32) =
                 (num(&m, "timeout")?, num(&m, "ch")?, num(&m, "reg")?, num(&m, "number")?, num(&m, "v")?, num(&m, "l")?);
             let st = 0xB0 + c as u8;
@@ -159,7 +159,7 @@ pub fn oracle_eval(name: &str, detail: &str) -> Option<bool> {
                 _ => {
                     #[cfg(feature = "std")]
                     {
-                        use helgoboss_midi::verif_hooks::{now_nanos, set_now_nanos};
+                        use crate::clock::{now_nanos, set_now_nanos};
                         let timeout: u64 = num(&m, "timeout")?;
                         set_now_nanos(0);
                         let d = core::time::Duration::from_nanos(timeout);
